@@ -133,3 +133,13 @@ func init() {
 		return "ok " + toHex([]byte(s))
 	})
 }
+
+func shParamList(s string) sh.ParameterisedList {
+	pl := sh.ParameterisedList{}
+	if s != "." {
+		for _, p := range strings.Split(s, ",") {
+			pl = append(pl, readPI(p))
+		}
+	}
+	return pl
+}
